@@ -33,19 +33,12 @@ pub fn check_trace(trace: &Trace, props: u32, want_log: bool) -> Checked {
         misaligned: None,
     };
     if let Some((step, op, in_lib)) = out.hang {
+        let _ = owner_of_op;
         // a call into the crate that does not return is a violation of the property that owns the
         // observable (termination is stated by C19 for closure / compilation); a hang outside the
         // crate is a harness error
         if in_lib {
-            let opk = OpKind::from_name(op);
-            let prop = match opk {
-                Some(OpKind::Closure | OpKind::Compile | OpKind::TryCompile | OpKind::IterAbandon | OpKind::CompileAbort) => Prop::C19,
-                Some(OpKind::IsEmpty | OpKind::GetString) => Prop::C05,
-                Some(OpKind::StartChar | OpKind::StartClass) => Prop::C18,
-                Some(OpKind::Replace | OpKind::ReplaceAll) => Prop::C10,
-                Some(o) if o.cat() == Cat::Deriv => Prop::C03,
-                _ => Prop::C01,
-            };
+            let prop = owner_of_op(op, props);
             if props & prop.bit() != 0 {
                 out.violation = Some(Violation {
                     prop,
@@ -101,6 +94,32 @@ pub fn check_trace(trace: &Trace, props: u32, want_log: bool) -> Checked {
     }
     c.out = out;
     c
+}
+
+/// the property that owns the observable of an operation (used when a call does not return or
+/// kills the process): termination of closure / compilation is C19's clause, otherwise the
+/// property whose API was being called; if that one is not enabled but the run is a single-property
+/// run whose property also depends on the call, the enabled property is blamed
+pub fn owner_of_op(op: &str, props: u32) -> Prop {
+    let opk = OpKind::from_name(op);
+    let p = match opk {
+        Some(OpKind::Closure | OpKind::IterAbandon | OpKind::CompileAbort) => Prop::C19,
+        Some(OpKind::Compile | OpKind::TryCompile) => {
+            if props & Prop::C02.bit() != 0 {
+                Prop::C02
+            } else {
+                Prop::C19
+            }
+        }
+        Some(OpKind::IsEmpty | OpKind::GetString) => Prop::C05,
+        Some(OpKind::StartChar | OpKind::StartClass) => Prop::C18,
+        Some(OpKind::Replace | OpKind::ReplaceAll) => Prop::C10,
+        Some(OpKind::IncludedIn) => Prop::C16,
+        Some(OpKind::Reissue | OpKind::EqCheck | OpKind::ComplTwice) => Prop::C07,
+        Some(o) if o.cat() == Cat::Deriv || o == OpKind::ClassInfo => Prop::C03,
+        _ => Prop::C01,
+    };
+    p
 }
 
 /// index in trace.steps of the n-th step of client ci
